@@ -813,18 +813,53 @@ theorem split_perm (ps : List (String × PyVal)) :
   have := List.filter_append_perm (fun kv : String × PyVal => !isFixed kv.2) ps
   simpa using this
 
-theorem creatorCheck_ok_iff (sig : List Param) (ps : List (String × PyVal)) :
-    creatorCheck sig ps = .ok () ↔ checkModelParams sig (ps.map (·.1)) = .ok () := by
+theorem checkModelParamsExtra_nil (sig : List Param) (keys : List String) :
+    checkModelParamsExtra sig [] keys = checkModelParams sig keys := by
+  simp [checkModelParamsExtra]
+
+/-- with keywords the caller passes anyway: none of them is a parameter too, and the constructor binds them together
+    with the parameters -/
+theorem checkModelParamsExtra_ok_iff (sig : List Param) (extra keys : List String) :
+    checkModelParamsExtra sig extra keys = .ok () ↔
+      hasVarPositional sig = false ∧ (∀ k ∈ extra, k ∉ keys) ∧ bindsByKeyword sig (extra ++ keys) := by
+  unfold checkModelParamsExtra
+  cases hf : extra.find? (keys.contains ·) with
+  | some k =>
+    simp only
+    have hk : keys.contains k = true := List.find?_some hf
+    have hm : k ∈ extra := List.mem_of_find?_eq_some hf
+    constructor
+    · intro e; cases e
+    · rintro ⟨_, h, _⟩
+      exact absurd (List.contains_iff_mem.mp hk) (h k hm)
+  | none =>
+    simp only
+    rw [checkModelParams_ok_iff]
+    have hn := List.find?_eq_none.mp hf
+    constructor
+    · rintro ⟨a, b⟩
+      exact ⟨a, fun k hk hin => hn k hk (List.contains_iff_mem.mpr hin), b⟩
+    · rintro ⟨a, _, b⟩
+      exact ⟨a, b⟩
+
+theorem creatorCheck_ok_iff (sig : List Param) (ps : List (String × PyVal)) (extra : List String := []) :
+    creatorCheck sig ps extra = .ok () ↔ checkModelParamsExtra sig extra (ps.map (·.1)) = .ok () := by
   unfold creatorCheck
   simp only
-  rw [checkModelParams_ok_iff, checkModelParams_ok_iff]
+  rw [checkModelParamsExtra_ok_iff, checkModelParamsExtra_ok_iff]
+  have hmem : ∀ k, k ∈ (splitModelParams ps).2.map (·.1) ++ (splitModelParams ps).1.map (·.1) ↔ k ∈ ps.map (·.1) := by
+    intro k
+    have hp := (split_perm ps).map (·.1)
+    rw [← hp.mem_iff, List.map_append, List.mem_append, List.mem_append]
+    exact Or.comm
   apply and_congr_right
   intro _
-  apply bindsByKeyword_congr
-  intro k
-  have hp := (split_perm ps).map (·.1)
-  rw [← hp.mem_iff, List.map_append, List.mem_append, List.mem_append]
-  exact Or.comm
+  apply and_congr
+  · exact forall_congr' fun k => imp_congr_right fun _ => not_congr (hmem k)
+  · apply bindsByKeyword_congr
+    intro k
+    rw [List.mem_append, List.mem_append (s := extra)]
+    exact or_congr_right (hmem k)
 
 /-! ## layers -/
 
